@@ -147,7 +147,7 @@ def appWiring : List (String × List String) := [
   ("app.App.RegisterTxService", ["call authtx.RegisterTxService(app.BaseApp.GRPCQueryRouter(), clientCtx, app.BaseApp.Simulate, app.interfaceRegistry)", "call _.GRPCQueryRouter()"]),
   ("app.App.SimulationManager", ["return _"]),
   ("app.App.TxConfig", ["return _"]),
-  ("app.App.prepForZeroHeightGenesis", ["assign applyAllowedAddrs := false", "if len(jailAllowedAddrs) > 0", "call len(jailAllowedAddrs)", "lit 0", "assign applyAllowedAddrs = true", "assign allowedAddrsMap := make(map[string]bool)", "call make(map[string]bool)", "range jailAllowedAddrs", "assign _,err := sdk.ValAddressFromBech32(addr)", "call sdk.ValAddressFromBech32(addr)", "if err != nil", "call log.Fatal(err)", "assign allowedAddrsMap[addr] = true", "call _.AssertInvariants(ctx)", "call _.IterateValidators(ctx, _)", "assign _,_ = app.DistrKeeper.WithdrawValidatorCommission(ctx, val.GetOperator())", "call _.WithdrawValidatorCommission(ctx, val.GetOperator())", "call val.GetOperator()", "return false", "assign dels := app.StakingKeeper.GetAllDelegations(ctx)", "call _.GetAllDelegations(ctx)", "range dels", "assign valAddr,err := sdk.ValAddressFromBech32(delegation.ValidatorAddress)", "call sdk.ValAddressFromBech32(delegation.ValidatorAddress)", "if err != nil", "call panic(err)", "assign delAddr := sdk.MustAccAddressFromBech32(delegation.DelegatorAddress)", "call sdk.MustAccAddressFromBech32(delegation.DelegatorAddress)", "assign _,_ = app.DistrKeeper.WithdrawDelegationRewards(ctx, delAddr, valAddr)", "call _.WithdrawDelegationRewards(ctx, delAddr, valAddr)", "call _.DeleteAllValidatorSlashEvents(ctx)", "call _.DeleteAllValidatorHistoricalRewards(ctx)", "assign height := ctx.BlockHeight()", "call ctx.BlockHeight()", "assign ctx = ctx.WithBlockHeight(0)", "call ctx.WithBlockHeight(0)", "lit 0", "call _.IterateValidators(ctx, _)", "assign scraps := app.DistrKeeper.GetValidatorOutstandingRewardsCoins(ctx, val.GetOperator())", "call _.GetValidatorOutstandingRewardsCoins(ctx, val.GetOperator())", "call val.GetOperator()", "assign feePool := app.DistrKeeper.GetFeePool(ctx)", "call _.GetFeePool(ctx)", "assign feePool.CommunityPool = feePool.CommunityPool.Add(scraps...)", "call _.Add(scraps)", "call _.SetFeePool(ctx, feePool)", "if err != nil", "assign err := app.DistrKeeper.Hooks().AfterValidatorCreated(ctx, val.GetOperator())", "call _.AfterValidatorCreated(ctx, val.GetOperator())", "call _.Hooks()", "call val.GetOperator()", "call panic(err)", "return false", "range dels", "assign valAddr,err := sdk.ValAddressFromBech32(del.ValidatorAddress)", "call sdk.ValAddressFromBech32(del.ValidatorAddress)", "if err != nil", "call panic(err)", "assign delAddr := sdk.MustAccAddressFromBech32(del.DelegatorAddress)", "call sdk.MustAccAddressFromBech32(del.DelegatorAddress)", "if err != nil", "assign err := app.DistrKeeper.Hooks().BeforeDelegationCreated(ctx, delAddr, valAddr)", "call _.BeforeDelegationCreated(ctx, delAddr, valAddr)", "call _.Hooks()", "call panic(fmt.Errorf(\"error while incrementing period: %w\", err))", "call fmt.Errorf(_, err)", "if err != nil", "assign err := app.DistrKeeper.Hooks().AfterDelegationModified(ctx, delAddr, valAddr)", "call _.AfterDelegationModified(ctx, delAddr, valAddr)", "call _.Hooks()", "call panic(_)", "call fmt.Errorf(_, err)", "assign ctx = ctx.WithBlockHeight(height)", "call ctx.WithBlockHeight(height)", "call _.IterateRedelegations(ctx, _)", "range red.Entries", "assign red.Entries[i].CreationHeight = 0", "lit 0", "call _.SetRedelegation(ctx, red)", "return false", "call _.IterateUnbondingDelegations(ctx, _)", "range ubd.Entries", "assign ubd.Entries[i].CreationHeight = 0", "lit 0", "call _.SetUnbondingDelegation(ctx, ubd)", "return false", "assign store := ctx.KVStore(app.GetKey(stakingtypes.StoreKey))", "call ctx.KVStore(app.GetKey(stakingtypes.StoreKey))", "call app.GetKey(stakingtypes.StoreKey)", "assign iter := sdk.KVStoreReversePrefixIterator(store, stakingtypes.ValidatorsKey)", "call sdk.KVStoreReversePrefixIterator(store, stakingtypes.ValidatorsKey)", "assign counter := int16(0)", "call int16(0)", "lit 0", "for iter.Valid()", "call iter.Valid()", "call iter.Next()", "assign addr := sdk.ValAddress(iter.Key()[1:])", "call sdk.ValAddress(iter.Key()[1:])", "call iter.Key()", "lit 1", "assign validator,found := app.StakingKeeper.GetValidator(ctx, addr)", "call _.GetValidator(ctx, addr)", "if !found", "call panic(\"expected validator, not found\")", "lit \"expected validator, not found\"", "assign validator.UnbondingHeight = 0", "lit 0", "if applyAllowedAddrs && !allowedAddrsMap[addr.String()]", "call addr.String()", "assign validator.Jailed = true", "call _.SetValidator(ctx, validator)", "if err != nil", "assign err := iter.Close()", "call iter.Close()", "call _.Error(_, err)", "call app.Logger()", "return ", "if err != nil", "assign _,err := app.StakingKeeper.ApplyAndReturnValidatorSetUpdates(ctx)", "call _.ApplyAndReturnValidatorSetUpdates(ctx)", "call log.Fatal(err)", "call _.IterateValidatorSigningInfos(ctx, _)", "assign info.StartHeight = 0", "lit 0", "call _.SetValidatorSigningInfo(ctx, addr, info)", "return false"]),
+  ("app.App.prepForZeroHeightGenesis", ["assign applyAllowedAddrs := false", "if len(jailAllowedAddrs) > 0", "call len(jailAllowedAddrs)", "lit 0", "assign applyAllowedAddrs = true", "assign allowedAddrsMap := make(map[string]bool)", "call make(map[string]bool)", "range jailAllowedAddrs", "assign _,err := sdk.ValAddressFromBech32(addr)", "call sdk.ValAddressFromBech32(addr)", "if err != nil", "call log.Fatal(err)", "assign allowedAddrsMap[addr] = true", "call _.AssertInvariants(ctx)", "call _.IterateValidators(ctx, _)", "assign _,_ = app.DistrKeeper.WithdrawValidatorCommission(ctx, val.GetOperator())", "call _.WithdrawValidatorCommission(ctx, val.GetOperator())", "call val.GetOperator()", "return false", "assign dels := app.StakingKeeper.GetAllDelegations(ctx)", "call _.GetAllDelegations(ctx)", "range dels", "assign valAddr,err := sdk.ValAddressFromBech32(delegation.ValidatorAddress)", "call sdk.ValAddressFromBech32(delegation.ValidatorAddress)", "if err != nil", "call panic(err)", "assign delAddr := sdk.MustAccAddressFromBech32(delegation.DelegatorAddress)", "call sdk.MustAccAddressFromBech32(delegation.DelegatorAddress)", "assign _,_ = app.DistrKeeper.WithdrawDelegationRewards(ctx, delAddr, valAddr)", "call _.WithdrawDelegationRewards(ctx, delAddr, valAddr)", "call _.DeleteAllValidatorSlashEvents(ctx)", "call _.DeleteAllValidatorHistoricalRewards(ctx)", "assign height := ctx.BlockHeight()", "call ctx.BlockHeight()", "assign ctx = ctx.WithBlockHeight(0)", "call ctx.WithBlockHeight(0)", "lit 0", "call _.IterateValidators(ctx, _)", "assign scraps := app.DistrKeeper.GetValidatorOutstandingRewardsCoins(ctx, val.GetOperator())", "call _.GetValidatorOutstandingRewardsCoins(ctx, val.GetOperator())", "call val.GetOperator()", "assign feePool := app.DistrKeeper.GetFeePool(ctx)", "call _.GetFeePool(ctx)", "assign feePool.CommunityPool = feePool.CommunityPool.Add(scraps...)", "call _.Add(scraps)", "call _.SetFeePool(ctx, feePool)", "if err != nil", "assign err := app.DistrKeeper.Hooks().AfterValidatorCreated(ctx, val.GetOperator())", "call _.AfterValidatorCreated(ctx, val.GetOperator())", "call _.Hooks()", "call val.GetOperator()", "call panic(err)", "return false", "range dels", "assign valAddr,err := sdk.ValAddressFromBech32(del.ValidatorAddress)", "call sdk.ValAddressFromBech32(del.ValidatorAddress)", "if err != nil", "call panic(err)", "assign delAddr := sdk.MustAccAddressFromBech32(del.DelegatorAddress)", "call sdk.MustAccAddressFromBech32(del.DelegatorAddress)", "if err != nil", "assign err := app.DistrKeeper.Hooks().BeforeDelegationCreated(ctx, delAddr, valAddr)", "call _.BeforeDelegationCreated(ctx, delAddr, valAddr)", "call _.Hooks()", "call panic(fmt.Errorf(\"error while incrementing period: %w\", err))", "call fmt.Errorf(_, err)", "if err != nil", "assign err := app.DistrKeeper.Hooks().AfterDelegationModified(ctx, delAddr, valAddr)", "call _.AfterDelegationModified(ctx, delAddr, valAddr)", "call _.Hooks()", "call panic(_)", "call fmt.Errorf(_, err)", "assign ctx = ctx.WithBlockHeight(height)", "call ctx.WithBlockHeight(height)", "call _.IterateRedelegations(ctx, _)", "range red.Entries", "assign red.Entries[i].CreationHeight = 0", "lit 0", "call _.SetRedelegation(ctx, red)", "return false", "call _.IterateUnbondingDelegations(ctx, _)", "range ubd.Entries", "assign ubd.Entries[i].CreationHeight = 0", "lit 0", "call _.SetUnbondingDelegation(ctx, ubd)", "return false", "assign store := ctx.KVStore(app.GetKey(stakingtypes.StoreKey))", "call ctx.KVStore(app.GetKey(stakingtypes.StoreKey))", "call app.GetKey(stakingtypes.StoreKey)", "assign iter := sdk.KVStoreReversePrefixIterator(store, stakingtypes.ValidatorsKey)", "call sdk.KVStoreReversePrefixIterator(store, stakingtypes.ValidatorsKey)", "assign counter := int16(0)", "call int16(0)", "lit 0", "for iter.Valid()", "call iter.Valid()", "call iter.Next()", "assign addr := sdk.ValAddress(stakingtypes.AddressFromValidatorsKey(iter.Key()))", "call sdk.ValAddress(stakingtypes.AddressFromValidatorsKey(iter.Key()))", "call stakingtypes.AddressFromValidatorsKey(iter.Key())", "call iter.Key()", "assign validator,found := app.StakingKeeper.GetValidator(ctx, addr)", "call _.GetValidator(ctx, addr)", "if !found", "call panic(\"expected validator, not found\")", "lit \"expected validator, not found\"", "assign validator.UnbondingHeight = 0", "lit 0", "if applyAllowedAddrs && !allowedAddrsMap[addr.String()]", "call addr.String()", "assign validator.Jailed = true", "call _.SetValidator(ctx, validator)", "if err != nil", "assign err := iter.Close()", "call iter.Close()", "call _.Error(_, err)", "call app.Logger()", "return ", "if err != nil", "assign _,err := app.StakingKeeper.ApplyAndReturnValidatorSetUpdates(ctx)", "call _.ApplyAndReturnValidatorSetUpdates(ctx)", "call log.Fatal(err)", "call _.IterateValidatorSigningInfos(ctx, _)", "assign info.StartHeight = 0", "lit 0", "call _.SetValidatorSigningInfo(ctx, addr, info)", "return false"]),
   ("app.App.setAnteHandler", ["call app.SetAnteHandler(_)", "call sdktypes.ChainAnteDecorators(ante.NewSetUpContextDecorator(), ante.NewExtensionOptionsDecorator(nil), ante.NewValidateBasicDecorator(), ante.NewTxTimeoutHeightDecorator(), ante.NewValidateMemoDecorator(app.AccountKeeper), ante.NewConsumeGasForTxSizeDecorator(app.AccountKeeper), _, ante.NewSetPubKeyDecorator(app.AccountKeeper), ante.NewValidateSigCountDecorator(app.AccountKeeper), _, _, ante.NewIncrementSequenceDecorator(app.AccountKeeper), ibcante.NewRedundantRelayDecorator(app.IBCKeeper))", "call ante.NewSetUpContextDecorator()", "call ante.NewExtensionOptionsDecorator(nil)", "call ante.NewValidateBasicDecorator()", "call ante.NewTxTimeoutHeightDecorator()", "call ante.NewValidateMemoDecorator(app.AccountKeeper)", "call ante.NewConsumeGasForTxSizeDecorator(app.AccountKeeper)", "call ante.NewDeductFeeDecorator(app.AccountKeeper, app.BankKeeper, app.FeeGrantKeeper, nil)", "call ante.NewSetPubKeyDecorator(app.AccountKeeper)", "call ante.NewValidateSigCountDecorator(app.AccountKeeper)", "call ante.NewSigGasConsumeDecorator(app.AccountKeeper, ante.DefaultSigVerificationGasConsumer)", "call ante.NewSigVerificationDecorator(app.AccountKeeper, txConfig.SignModeHandler())", "call txConfig.SignModeHandler()", "call ante.NewIncrementSequenceDecorator(app.AccountKeeper)", "call ibcante.NewRedundantRelayDecorator(app.IBCKeeper)"]),
   ("app.App.setPostHandler", ["assign postHandler,err := _", "call posthandler.NewPostHandler(_)", "if err != nil", "call panic(err)", "call app.SetPostHandler(postHandler)"]),
   ("app.App.setupUpgradeHandlers", ["range Upgrades", "call _.SetUpgradeHandler(u.UpgradeName, _)", "call u.CreateUpgradeHandler(app.ModuleManager, app.configurator, &app.AppKeepersWithKey)"]),
@@ -320,7 +320,7 @@ def lockPaths : List (String × List (List String)) := [
   ("Save", [[], ["Lock", "Unlock"]])]
 
 /-- skeletons of the `init` functions per package (empty list: the package has none) -/
-def initFuncs : List (String × List String) := [("x/aol/types", ["call RegisterCodec(amino)", "call amino.Seal()", "call RegisterCodec(authzcodec.Amino)"]), ("x/did/types", ["call RegisterCodec(authzcodec.Amino)"])]
+def initFuncs : List (String × List String) := [("x/aol/types", ["call RegisterCodec(amino)", "call amino.Seal()", "call RegisterCodec(authzcodec.Amino)", "call RegisterCodec(govcodec.Amino)", "call RegisterCodec(groupcodec.Amino)"]), ("x/did/types", ["call RegisterCodec(authzcodec.Amino)", "call RegisterCodec(govcodec.Amino)", "call RegisterCodec(groupcodec.Amino)"])]
 
 /-- which of Route / Type / GetSignBytes / GetSigners / ValidateBasic each message type implements -/
 def msgMethods : List (String × List String) := [
